@@ -2,6 +2,7 @@ package checks
 
 import (
 	"fmt"
+	"runtime"
 	"sort"
 	"strings"
 	"sync"
@@ -17,7 +18,7 @@ import (
 
 // C09 — bindings: exact registry with at most one binding per server feature.
 //
-// Sequential part: the World of C08 (S0 [1]/1 and S1 [2]/1 of one type, S2 [1]/2 of another, a local client
+// Sequential part: the World of C08 (S0 [1]/1, S1 [2]/1 and the nested twin S3 [1,1]/1 of one type, S2 [1]/2 of another, a local client
 // feature, three identically numbered peers) and a history of 10-25 bind / unbind / registry-read operations.
 // The reference registry maps each server feature to its holder (peer, client feature); a request is granted
 // iff the statement's conjunction holds on the harness's own trees and the server feature is unbound; an
@@ -32,7 +33,9 @@ import (
 // Duel part (plain and -race): 2-4 connections bind the same server feature from different goroutines with
 // a rendezvous at AddBinding.afterCheck (between the single-binding check and the insertion); also
 // unbind || bind || bind and bind/unbind/bind sequences under jitter. Invariants at quiescence and porcupine
-// with a register model per server feature.
+// with a register model per server feature; a sampler goroutine reads BindingsOnFeature while the requests run
+// ("at no time": never two bindings, never a holder whose request was refused); the nested twin of the contested
+// feature ([1]/1 vs [1,1]/1) is a bystander; every event is attributed to an acknowledged request.
 //
 // conc-rmw / conc-rmw-race and early parts: see regkit.go (rkRmwCase, rkEarlyCase) and the header of c08.go; here with
 // bind / unbind, BindingsOnFeature, HasLocalFeatureRemoteBinding, Bindings(peer) and nodeManagementBindingData.
@@ -41,12 +44,15 @@ func init() {
 	rig.Register(&rig.Check{
 		ID:    "C09",
 		Floor: 450,
-		Rule: "sequential case = one World (3 local server features, 2 of them of the same type, 1 local client feature, 3 identically numbered peers with 2 same-typed client features each) and a seeded history of 10-25 operations " +
+		Rule: "sequential case = one World (4 local server features, 3 of them of the same type - S3 [1,1]/1 carries the feature number of S0 [1]/1 in its sub-entity -, 1 local client feature, 3 identically numbered peers with 2 same-typed client features each) and a seeded history of 10-25 operations " +
 			"{bind (valid / server already bound by the same client, another client of the peer, another peer / wrong role / wrong type / requested type Generic for concretely typed features / unknown entity / unknown feature, device part omitted; clients in [1], [1,1] and the device information entity [0]), " +
 			"unbind (holder / same numbers from another peer / other client of the holder's peer / holder's client on another server / unknown), registry read}; a fifth of the requests and half of the deletes that use the numbers of another peer's binding carry a FOREIGN device part " +
 			"in the client and/or server address (client address: the device of another connected peer - preferably the holder -, of the local device or of nobody; server address: the device of a peer or of nobody); non-trivial if it saw a grant, a rejection of a second binding and a successful unbind. " +
 			"duel case = k in 2..4 connections issuing bind (and unbind) for one server feature concurrently with the window after the single-binding check forced by a rendezvous or jittered; in every fifth case ('foreign') peer 0 holds the contested binding and a bystander binding on a second server feature, " +
 			"and the other connections send deletes and requests that name peer 0's (or another) device with numbers that exist on every peer, mixed with ordinary calls; non-trivial if the window was forced (all k binds held between check and insertion) or, for the jitter variants, if at least two operations overlapped, and porcupine decided. " +
+			"Every duel world has the nested twin of the contested feature ([1]/1 and [1,1]/1, same type; in half of the cases the contested one is the nested one; in half of the cases peer 0 holds a binding on the twin, which nobody names and which must be the same afterwards). " +
+			"'At no time': a sampler goroutine reads BindingsOnFeature of the contested feature (every fourth time also of the twin) in a loop while the requests run; every observation must show at most one binding, every holder seen must be a client whose binding request was acknowledged, the twin must never change. " +
+			"Each binding change event of the concurrent phase must name connection, client and server feature of one acknowledged request (multiset equality), not only match in number. " +
 			"rmw case (regkit.go) = a registry pre-filled with 50-250 bindings of a silent bystander connection (one per server feature); 3-4 actor goroutines, each with its own connection and its own 1-2 server features, toggle bind / unbind (now and then a repeated call) for 6 (thorough 12) rounds of 8-16 calls each; " +
 			"every call's answer must be the one the history of its own server feature demands (calls on different server features commute), and at the quiescent point after every round BindingsOnFeature, HasLocalFeatureRemoteBinding, Bindings(peer) with ids, one nodeManagementBindingData read, " +
 			"the bystander's bindings and the add/remove events must equal what the acknowledged calls leave; non-trivial if in some round a call overlapped an acknowledged delete of another connection (call/return stamps from one atomic counter). " +
@@ -114,7 +120,8 @@ var c09RegKind = rkRegKind{
 	},
 }
 
-var c09Servers = []string{"S0", "S1", "S2"}
+// S3 is [1,1]/1: the sub-entity of S0's entity [1] restarts the feature numbering (same type, same feature number)
+var c09Servers = []string{"S0", "S1", "S2", "S3"}
 var c09Clients = []string{"a", "b", "c", "g"}
 
 // c09Expect evaluates the statement's conjunction for a binding request.
@@ -157,7 +164,7 @@ func c09Seq(c *rig.Ctx) {
 	fail := func(sig, format string, a ...any) {
 		c.Violate(sig, "%s\n history:\n  %s", fmt.Sprintf(format, a...), strings.Join(hist, "\n  "))
 	}
-	grants, secondRejected, unbinds := 0, 0, 0
+	grants, secondRejected, unbinds, reann := 0, 0, 0, 0
 
 	takeAll := func() [][]model.DatagramType {
 		outs := make([][]model.DatagramType, len(w.Peers))
@@ -345,8 +352,8 @@ func c09Seq(c *rig.Ctx) {
 				cli = cs[r.Intn(len(cs))]
 				typ = cw.locals[srv].Typ
 				// one client bound to two server features is the case a sloppy delete filter gets wrong
-				if tw := map[string]string{"S0": "S1", "S1": "S0"}[srv]; tw != "" && r.Intn(2) == 0 {
-					if h, ok := binds[tw]; ok {
+				if tw := map[string][]string{"S0": {"S1", "S3"}, "S1": {"S0", "S3"}, "S3": {"S0", "S1"}}[srv]; tw != nil && r.Intn(2) == 0 {
+					if h, ok := binds[tw[r.Intn(2)]]; ok {
 						pi, cli = h.peer, h.cli
 						p = w.Peers[pi]
 						kind = "valid-second-server-of-client"
@@ -374,16 +381,16 @@ func c09Seq(c *rig.Ctx) {
 				case 9, 10:
 					// the requested type is Generic while the addressed server feature (and the client) has a concrete type:
 					// that is not "the requested type"
-					pr := [][2]string{{"a", "S0"}, {"b", "S1"}, {"c", "S2"}, {"g", "S0"}}[r.Intn(4)]
+					pr := [][2]string{{"a", "S0"}, {"b", "S1"}, {"c", "S2"}, {"g", "S0"}, {"b", "S3"}, {"a", "S3"}}[r.Intn(6)]
 					kind, cli, srv, typ = "generic-type-requested", pr[0], pr[1], model.FeatureTypeTypeGeneric
 				case 0:
 					kind, cli, srv, typ = "wrong-role-server", "f", "LC", model.FeatureTypeTypeMeasurement
 				case 1:
-					kind, cli, srv, typ = "wrong-role-client", "d", []string{"S0", "S1"}[r.Intn(2)], model.FeatureTypeTypeDeviceClassification
+					kind, cli, srv, typ = "wrong-role-client", "d", []string{"S0", "S1", "S3"}[r.Intn(3)], model.FeatureTypeTypeDeviceClassification
 				case 2:
 					kind, cli, srv, typ = "wrong-type-requested", "a", "S0", model.FeatureTypeTypeIdentification
 				case 3:
-					kind, cli, srv, typ = "wrong-type-client", "c", []string{"S0", "S1"}[r.Intn(2)], model.FeatureTypeTypeDeviceClassification
+					kind, cli, srv, typ = "wrong-type-client", "c", []string{"S0", "S1", "S3"}[r.Intn(3)], model.FeatureTypeTypeDeviceClassification
 				case 4:
 					kind, cli, srv, typ = "wrong-type-server", []string{"a", "b"}[r.Intn(2)], "S2", model.FeatureTypeTypeDeviceClassification
 				case 5:
@@ -391,9 +398,9 @@ func c09Seq(c *rig.Ctx) {
 				case 6:
 					kind, cli, srv, typ = "unknown-feature-server", "a", "unkFeat", model.FeatureTypeTypeDeviceClassification
 				case 7:
-					kind, cli, srv, typ = "unknown-entity-client", "unkEnt", []string{"S0", "S1"}[r.Intn(2)], model.FeatureTypeTypeDeviceClassification
+					kind, cli, srv, typ = "unknown-entity-client", "unkEnt", []string{"S0", "S1", "S3"}[r.Intn(3)], model.FeatureTypeTypeDeviceClassification
 				default:
-					kind, cli, srv, typ = "unknown-feature-client", "unkFeat", []string{"S0", "S1"}[r.Intn(2)], model.FeatureTypeTypeDeviceClassification
+					kind, cli, srv, typ = "unknown-feature-client", "unkFeat", []string{"S0", "S1", "S3"}[r.Intn(3)], model.FeatureTypeTypeDeviceClassification
 				}
 			}
 			ca, sa := cw.cliAddr(p, cli), cw.srvAddr(srv)
@@ -498,7 +505,7 @@ func c09Seq(c *rig.Ctx) {
 			case k < 86 && len(holders) > 0:
 				h := holders[r.Intn(len(holders))]
 				kind, cli, pi = "holders-client-on-other-server", h.cli, h.peer
-				srv = map[string]string{"S0": "S1", "S1": "S0", "S2": "S0"}[h.srv]
+				srv = map[string][]string{"S0": {"S1", "S3"}, "S1": {"S0", "S3"}, "S2": {"S0", "S3"}, "S3": {"S0", "S1"}}[h.srv][r.Intn(2)]
 			case k < 93:
 				kind = "random-pair"
 				srv = c09Servers[r.Intn(len(c09Servers))]
@@ -599,6 +606,112 @@ func c09Seq(c *rig.Ctx) {
 				}
 			}
 			shape = append(shape, fmt.Sprintf("unbind:%s:%s>%s%s:%v", reason, cli, srv, omit, removed))
+
+		case roll >= 90 && roll < 95: // ---------------- re-announcement without reconnect
+			// A peer announces again what it has announced before (the whole detailed discovery reply, or a partial notify
+			// lastStateChange=added for a known entity): same addresses, roles and types. The stack may rebuild its objects;
+			// that is neither a bind nor an unbind call: registry and ids stay, the bound feature is still bound for everybody,
+			// and the holder's delete still removes exactly its binding.
+			var hs []c08Entry
+			for _, s := range c09Servers {
+				if h, ok := binds[s]; ok {
+					hs = append(hs, h)
+				}
+			}
+			if len(hs) > 0 && r.Intn(3) > 0 { // prefer a peer that holds a binding
+				pi = hs[r.Intn(len(hs))].peer
+				p = w.Peers[pi]
+			}
+			how, ent := "reply", []uint(nil)
+			if r.Intn(2) == 0 {
+				how, ent = "added", [][]uint{{1}, {1, 1}, {0}, {1}}[r.Intn(4)]
+			}
+			tree := rkAnnounceList(c08PeerFeats)
+			if r.Intn(2) == 0 {
+				reann++
+				how += "+new-descriptions"
+				for i := range tree {
+					tree[i].Desc = fmt.Sprintf("revision %d", reann)
+				}
+			}
+			var mine []c08Entry
+			for _, h := range hs {
+				if h.peer == pi {
+					mine = append(mine, h)
+				}
+			}
+			log("#%d peer%d announces itself again (%s %v, same addresses, roles and types); it holds %d bindings", step, pi, how, ent, len(mine))
+			takeAll()
+			w.Core.Take()
+			regBefore := bindSnapOthers(-1)
+			if strings.HasPrefix(how, "reply") {
+				p.Announce(tree)
+			} else {
+				var feats []rig.FS
+				for _, f := range tree {
+					if fmt.Sprint(f.Ent) == fmt.Sprint(ent) {
+						feats = append(feats, f)
+					}
+				}
+				p.NotifyDiscovery(true, p.Discovery(feats, map[string]model.NetworkManagementStateChangeType{fmt.Sprint(ent): model.NetworkManagementStateChangeTypeAdded}, nil))
+			}
+			c.Events(1)
+			what := "re-announcement"
+			for qi, o := range takeAll() {
+				if qi != pi && len(o) > 0 {
+					fail(what+"/unexpected-datagram", "peer %d received %s", qi, rig.JS(o))
+				}
+			}
+			if how, detail := c08SnapDiff(regBefore, bindSnapOthers(-1)); how != "" {
+				fail(what+"/registry-changed", "a re-announcement with unchanged content changed the binding registry (%s): %s", strings.Replace(how, "entry", "binding", 1), detail)
+			}
+			var bev []string
+			for _, e := range w.Core.Take() {
+				if e.P.EventType == api.EventTypeBindingChange {
+					bev = append(bev, e.String())
+				}
+			}
+			c.Events(1)
+			if len(bev) > 0 {
+				fail(what+"/event-unexpected", "nobody bound or unbound anything, yet %d binding change events were published: %v", len(bev), bev)
+			}
+			judgeRegistry(what)
+			c.Count("op:re-announcement:"+how, 1)
+			shape = append(shape, fmt.Sprintf("reann:%s:%v:%d", how, ent, len(mine)))
+			if len(mine) > 0 && !c.Failed() {
+				e := mine[r.Intn(len(mine))]
+				ca, sa := cw.cliAddr(p, e.cli), cw.srvAddr(e.srv)
+				switch r.Intn(3) {
+				case 0: // the same request again, or the request of another peer: the feature is still bound
+					q, qi := p, pi
+					if r.Intn(2) == 0 {
+						qi = (pi + 1 + r.Intn(2)) % 3
+						q = w.Peers[qi]
+						ca = cw.cliAddr(q, e.cli)
+					}
+					log("   peer%d binds %s -> %s", qi, e.cli, e.srv)
+					mc := q.Bind(ca, sa, cw.locals[e.srv].Typ)
+					c.Events(1)
+					granted := judgeResult("bind/already-bound-after-re-announcement", qi, mc, takeAll(), "reject")
+					judgeEvents("bind", api.ElementChangeAdd, granted, qi, cw.pfeat[e.cli].Key(q), cw.locals[e.srv].Key())
+					if !granted {
+						secondRejected++
+					}
+					c.Count("bind:already-bound-after-re-announcement", 1)
+				case 1: // the holder's delete still finds its binding
+					log("   peer%d unbinds %s -> %s", pi, e.cli, e.srv)
+					mc := p.Unbind(ca, sa)
+					c.Events(1)
+					removed := judgeResult("unbind/present-after-re-announcement", pi, mc, takeAll(), "grant")
+					if removed {
+						delete(binds, e.srv)
+						unbinds++
+					}
+					judgeEvents("unbind", api.ElementChangeRemove, removed, pi, cw.pfeat[e.cli].Key(p), cw.locals[e.srv].Key())
+					c.Count("unbind:present-after-re-announcement", 1)
+				}
+				judgeRegistry(what + "/follow-up")
+			}
 
 		default: // ---------------- registry read over the wire
 			cl := model.CmdClassifierTypeCall
@@ -734,6 +847,17 @@ func c09Duel(c *rig.Ctx) {
 	srv.AddFunctionType(model.FunctionTypeDeviceClassificationUserData, true, true)
 	other := e1.GetOrAddFeature(model.FeatureTypeTypeIdentification, model.RoleTypeServer) // a bystander binding that must survive
 	other.AddFunctionType(model.FunctionTypeIdentificationListData, true, true)
+	// the nested twin: the sub-entity [1,1] restarts the feature numbering, its server feature [1,1]/1 has the type and the
+	// feature number of the contested [1]/1. In every second pair of cases the roles are swapped (the contested feature is
+	// the nested one); in every second case peer 0 holds a binding on the twin. Whatever happens to one of the two concerns
+	// the other one in no way.
+	e11 := w.AddEntity(model.EntityTypeTypeEV, []uint{1, 1}, 4*time.Second)
+	twin := e11.GetOrAddFeature(model.FeatureTypeTypeDeviceClassification, model.RoleTypeServer)
+	twin.AddFunctionType(model.FunctionTypeDeviceClassificationUserData, true, true)
+	nested := c.Index%4 >= 2
+	if nested {
+		srv, twin = twin, srv
+	}
 	clients := []rkPeerFeat{c08PeerFeats[1], c08PeerFeats[2], c08PeerFeats[3]} // a [1]/1, b [1,1]/1 (DeviceClassification), c [1]/2 (Identification)
 	variant := []string{"bind-k", "bind-k", "unbind-bind-bind", "sequences-jitter", "foreign"}[c.Index%5]
 	k := 2 + r.Intn(3)
@@ -757,6 +881,16 @@ func c09Duel(c *rig.Ctx) {
 		c.Violate("duel/setup-bind-refused", "the bystander binding was refused")
 		return
 	}
+
+	twinBound := r.Intn(2) == 0
+	if twinBound {
+		tmc := w.Peers[0].Bind(clients[r.Intn(2)].Addr(w.Peers[0], true), twin.Address(), model.FeatureTypeTypeDeviceClassification)
+		if ok, _, _ := rkResultOf(w.Peers[0].Tap.Take(), tmc); ok != 1 {
+			c.Violate("duel/setup-bind-refused", "the binding of peer 0 on the twin feature %s was refused", rkKey(twin.Address()))
+			return
+		}
+	}
+	c.Count(fmt.Sprintf("duel_world:contested_feature_is_the_nested_one=%v:twin_feature_bound=%v", nested, twinBound), 1)
 
 	var mu sync.Mutex
 	var recs []c09Rec
@@ -885,6 +1019,21 @@ func c09Duel(c *rig.Ctx) {
 		return strings.Join(es, " ")
 	}
 	bystanderBefore := bystanderSnap()
+	twinSnap := func() string {
+		var es []string
+		for _, en := range bm.BindingsOnFeature(*twin.Address()) {
+			es = append(es, fmt.Sprintf("#%d %s>%s", en.Id, rkFeatKey(en.ClientFeature), rkFeatKey(en.ServerFeature)))
+		}
+		return strings.Join(es, " ")
+	}
+	twinBefore := twinSnap()
+	twinShort := func() string { // what the sampler records of the twin feature
+		if es := bm.BindingsOnFeature(*twin.Address()); len(es) > 0 {
+			return fmt.Sprintf("%d:%s", len(es), rkFeatKey(es[0].ClientFeature))
+		}
+		return "-"
+	}
+	twinShortBefore := twinShort()
 	h := rig.InstallHooks()
 	defer h.Uninstall()
 	const point = "AddBinding.afterCheck"
@@ -900,6 +1049,46 @@ func c09Duel(c *rig.Ctx) {
 	} else {
 		h.Jitter(point, r.Int63(), 300*time.Microsecond)
 	}
+	// "at no time": a sampler reads BindingsOnFeature of the contested feature (and of its twin) as fast as it can while the
+	// requests run. It records what it saw (consecutive equal observations once); the verdict is on the observations, not
+	// on time.
+	type c09Sample struct {
+		t       int64
+		holders []string
+		twin    string
+	}
+	var samples []c09Sample
+	nSamples := 0
+	stopSampler, samplerDone := make(chan struct{}), make(chan struct{})
+	srvAddr := *srv.Address()
+	go func() {
+		defer close(samplerDone)
+		lastH, lastT := "\x00", "\x00"
+		for {
+			select {
+			case <-stopSampler:
+				return
+			default:
+			}
+			var hs []string
+			for _, en := range bm.BindingsOnFeature(srvAddr) {
+				hs = append(hs, rkFeatKey(en.ClientFeature))
+			}
+			tw := ""
+			if nSamples%4 == 0 {
+				tw = twinShort()
+			}
+			nSamples++
+			if hkey := strings.Join(hs, " "); hkey != lastH || (tw != "" && tw != lastT) {
+				samples = append(samples, c09Sample{t: rig.Seq(), holders: hs, twin: tw})
+				lastH = hkey
+				if tw != "" {
+					lastT = tw
+				}
+			}
+			runtime.Gosched()
+		}
+	}()
 	start := make(chan struct{})
 	var wg sync.WaitGroup
 	for g := 0; g < k; g++ {
@@ -922,6 +1111,8 @@ func c09Duel(c *rig.Ctx) {
 		c.Inconclusive("duel did not finish within 60s (the progress watchdog decides whether this is a hang)")
 		<-done
 	}
+	close(stopSampler)
+	<-samplerDone
 	forced := h.Forced(point)
 	trace := h.Trace()
 	h.Uninstall()
@@ -996,6 +1187,39 @@ func c09Duel(c *rig.Ctx) {
 	if after := bystanderSnap(); after != bystanderBefore {
 		c.Violate("duel/foreign-device/binding-of-other-peer-changed", "the bystander binding of peer 0 was {%s} before the concurrent phase and is {%s} after it; nobody who holds it asked for that\n  %s", bystanderBefore, after, strings.Join(hist, "\n  "))
 	}
+	if after := twinSnap(); after != twinBefore {
+		c.Violate("duel/twin-binding-changed", "the feature %s with the contested feature's number in the %s entity had the bindings {%s} before the concurrent phase and has {%s} after it; no request named it\n  %s",
+			rkKey(twin.Address()), map[bool]string{true: "parent", false: "sub"}[nested], twinBefore, after, strings.Join(hist, "\n  "))
+	}
+	// the sampler's observations: at no time more than one binding, and nobody ever holds the feature whose request was refused
+	acked := map[string]bool{}
+	for _, x := range recs {
+		if (x.in.Op == "bind" || x.in.Op == "fbind") && !x.onOther && results[x.peer][x.mc] == 1 {
+			acked[x.in.Cli] = true
+		}
+	}
+	var seen []string
+	for _, sm := range samples {
+		c.Events(1)
+		seen = append(seen, fmt.Sprintf("@%d %v", sm.t, sm.holders))
+		if len(sm.holders) > 1 {
+			c.Violate("duel/"+variant+"/sampled/more-than-one-binding", "while the requests were running BindingsOnFeature(%s) returned %d bindings at once: %v\n  %s\n observations %v", rkKey(srv.Address()), len(sm.holders), sm.holders, strings.Join(hist, "\n  "), seen)
+			break
+		}
+		for _, hk := range sm.holders {
+			if !acked[hk] {
+				c.Violate("duel/"+variant+"/sampled/holder-whose-request-was-not-granted", "while the requests were running %s was bound by %s, whose binding request was never acknowledged\n  %s\n observations %v", rkKey(srv.Address()), hk, strings.Join(hist, "\n  "), seen)
+			}
+		}
+		if sm.twin != "" && sm.twin != twinShortBefore {
+			c.Violate("duel/sampled/twin-binding-changed", "while the requests were running the twin feature %s showed the bindings {%s}, before them {%s}\n  %s", rkKey(twin.Address()), sm.twin, twinShortBefore, strings.Join(hist, "\n  "))
+		}
+	}
+	c.Count("duel_sampler_reads", int64(nSamples))
+	c.Count("duel_sampler_distinct_consecutive_observations", int64(len(samples)))
+	if len(samples) > 1 {
+		c.Count("duel_cases_where_the_sampler_saw_the_registry_change", 1)
+	}
 	// quiescence: registry
 	es := bm.BindingsOnFeature(*srv.Address())
 	var holders []string
@@ -1046,8 +1270,9 @@ func c09Duel(c *rig.Ctx) {
 			c.Violate("duel/registry/ids-not-distinct", "Bindings(peer %d): %d entries, %d distinct ids", pi, len(bs), len(ids))
 		}
 	}
-	if total != len(es)+1 {
-		c.Violate("duel/registry/peer-lists-differ-from-feature-lists", "the peers' lists hold %d bindings, the features' lists %d", total, len(es)+1)
+	nTwin := len(bm.BindingsOnFeature(*twin.Address()))
+	if total != len(es)+1+nTwin {
+		c.Violate("duel/registry/peer-lists-differ-from-feature-lists", "the peers' lists hold %d bindings, the features' lists %d", total, len(es)+1+nTwin)
 	}
 	// events one to one
 	evs := w.Core.Take()
@@ -1055,6 +1280,30 @@ func c09Duel(c *rig.Ctx) {
 	c.Events(int64(adds + rems))
 	if adds != okBinds || rems != okUnbinds {
 		c.Violate("duel/events-differ-from-results", "%d add and %d remove events for %d successful binds and %d successful unbinds\n  %s", adds, rems, okBinds, okUnbinds, strings.Join(hist, "\n  "))
+	} else {
+		// ... and each event names the connection, client and server feature of one acknowledged request
+		wantEv, gotEv := map[string]int{}, map[string]int{}
+		for _, x := range recs {
+			if x.gor == 9 || x.onOther || results[x.peer][x.mc] != 1 {
+				continue
+			}
+			ch := "remove"
+			if x.in.Op == "bind" || x.in.Op == "fbind" {
+				ch = "add"
+			}
+			wantEv[fmt.Sprintf("%s ski=%s client=%s server=%s", ch, w.Peers[x.peer].Ski, x.in.Cli, rkKey(srv.Address()))]++
+		}
+		for _, e := range evs {
+			if e.P.EventType != api.EventTypeBindingChange {
+				continue
+			}
+			ch := map[api.ElementChangeType]string{api.ElementChangeAdd: "add", api.ElementChangeRemove: "remove"}[e.P.ChangeType]
+			gotEv[fmt.Sprintf("%s ski=%s client=%s server=%s", ch, e.P.Ski, rkFeatKey(e.P.Feature), rkFeatKey(e.P.LocalFeature))]++
+		}
+		c.Events(int64(len(gotEv)))
+		if fmt.Sprint(wantEv) != fmt.Sprint(gotEv) {
+			c.Violate("duel/event-attribution", "the binding change events %v do not describe the acknowledged requests %v\n  %s", gotEv, wantEv, strings.Join(hist, "\n  "))
+		}
 	}
 	for _, q := range w.Peers {
 		if n := q.PanicCount(); n > 0 {
